@@ -131,7 +131,7 @@ def gen_cases(tier, seed):
         for delay_at in ('plum_to_kiwi_future', 'on_done', None):
             cases.append({'adapter': 'comm_thread', 'depth': 1, 'order': [0], 'outcome': oc, 'thread': True, 'delay_at': delay_at})
         cases.append({'adapter': 'comm_thread', 'via': 'schedule_rpc', 'depth': 1, 'order': [0], 'outcome': oc, 'thread': True, 'delay_at': None})
-    for scen in ('run', 'run-twice', 'cancel-run', 'raise', 'raise-run', 'args', 'cancel-twice-run', 'cancel-inside-run', 'cancel-inside-raise', 'run-inside-run', 'run-inside-raise', 'cancelled-inside-then-cancel'):
+    for scen in ('run', 'run-twice', 'cancel-run', 'raise', 'raise-run', 'args', 'cancel-twice-run', 'cancel-inside-run', 'cancel-inside-raise', 'run-inside-run', 'run-inside-raise', 'cancelled-inside-then-cancel', 'run-inside-run-twice', 'run-inside-run-cancel'):
         cases.append({'adapter': 'action', 'scenario': scen, 'depth': 1, 'order': [], 'outcome': ['value', 1], 'thread': False})
     return cases
 
@@ -572,6 +572,16 @@ def run_action(case):
                 holder['inner'] = 'ran'
             except Exception as exc:  # noqa: BLE001
                 holder['inner'] = 'refused:%s' % type(exc).__name__
+            if scen == 'run-inside-run-twice':
+                # ... and so is the next one (a refusal changes nothing about the run that is in flight)
+                try:
+                    holder['action'].run()
+                    holder['inner'] = 'second-ran'
+                except Exception as exc:  # noqa: BLE001
+                    pass
+            if scen == 'run-inside-run-cancel':
+                # ... nor can the action be cancelled afterwards, from inside its own function: it is still running
+                holder['cancel_returned'] = holder['action'].cancel()
         if scen == 'cancelled-inside-then-cancel':
             gone = loop.create_future()
             gone.cancel()
@@ -590,6 +600,8 @@ def run_action(case):
             except Exception as exc:  # noqa: BLE001
                 viol.append(V('action-run-raised', 'action-run-raised:' + scen, 'run() raised %r when the action was %s from inside its own function' % (
                     exc, 'cancelled' if scen.startswith('cancel') else 'run again')))
+            if scen == 'run-inside-run-cancel' and holder.get('cancel_returned'):
+                viol.append(V('action-cancelled-while-running', 'action-cancelled-while-running:' + scen, 'cancel() from inside the running function, after a refused run(), returned True'))
             if scen.startswith('run-inside') and not str(holder.get('inner')).startswith('refused'):
                 viol.append(V('action-reran', 'action-reran:' + scen, 'run() called from inside the action\'s own function was not refused (%s)' % holder.get('inner')))
             got = _describe(action)
